@@ -745,3 +745,66 @@ def run_needed_len(run, P):
             return None
         solve(f, Env(), on_event, None, keys, R, key_fn=lambda e: e.ts.get('tested', ()), on_branch=on_branch)
     run.require(n >= 1 or run.fixture_mode or run.cfg != 'base', 'R-STREAM-ADV(needed length): no reader that builds up a needed length and compares it with a progress counter found')
+
+
+def run_unit_complete(run, P, fname='coap_read_session', buf_field='read_header'):
+    """R-STREAM-ADV (the unit that is parsed is the unit that was collected): the TCP reader collects a message header of L bytes into
+    session->read_header and hands the buffer with that L to the size parser.  The decision "the header is complete" that directly controls
+    that call accounts for every term of L: after replacing locals by what they were computed from (one level), the controlling condition
+    mentions every variable that L is made of.  A completeness test that forgets a term (the extended token length bytes) lets the parser
+    read bytes of the header that have not arrived yet -- only when a read happens to end exactly there."""
+    from core.prog import control_deps
+    run.rule('R-STREAM-ADV')
+    if not P.has(fname):
+        run.require(run.fixture_mode or run.cfg != 'base', 'R-STREAM-ADV(unit complete): anchor %s() not found' % fname)
+        return
+    f = P.func(fname)
+    B = f['B']
+    cd = control_deps(f)
+    defs = {}
+    for b, ev in P.events(f):
+        t = ev['e']
+        if t.get('k') == 'asg' and t.get('op') == '=' and ap(t['l']):
+            defs.setdefault(ap(t['l']), []).append(t['r'])
+        for d in t.get('d') or ():
+            if d.get('init') is not None:
+                defs.setdefault('v%d' % d['id'], []).append(d['init'])
+
+    def vars_of(x):
+        return set(ap(y) for y in walk(x) if isinstance(y, dict) and y.get('k') == 'var' and not y.get('g') and ap(y))
+    n = 0
+    for b in f['blocks']:
+        for ev in b['elems']:
+            for t in walk(ev['e']):
+                if not (isinstance(t, dict) and t.get('k') == 'call' and t.get('fn') and len(t.get('a') or []) >= 3):
+                    continue
+                A = t['a']
+                bi = [i for i, a in enumerate(A) if isinstance(strip(a), dict) and strip(a).get('k') == 'mem' and strip(a).get('f') == buf_field]
+                if not bi or bi[0] + 1 >= len(A):
+                    continue
+                L = A[bi[0] + 1]
+                lv = vars_of(L)
+                if not lv:
+                    continue
+                ctrl = [bb for (bb, idx) in cd.get(b['id'], ())]
+                if not ctrl:
+                    continue
+                n += 1
+                cond = B[ctrl[0]]['term']['cond']
+                cv = vars_of(cond)
+                for v in list(cv):
+                    for d in defs.get(v, ()):
+                        cv |= vars_of(d)
+                missing = sorted(lv - cv)
+                names = {}
+                for y in walk([L, cond]):
+                    if isinstance(y, dict) and y.get('k') == 'var' and ap(y):
+                        names[ap(y)] = y.get('n')
+                run.instance('R-STREAM-ADV', '%s: %s(%s, %s) under %s' % (fname, t['fn'], buf_field, short(L)[:30], short(cond)[:30]))
+                run.oblige('R-STREAM-ADV', not missing, '%s:unit-complete:%s' % (fname, t['fn']))
+                if missing:
+                    run.violation('R-STREAM-ADV', fname, ev['loc'], 'completeness-test-forgets-term:%s' % ','.join(names.get(m, m) for m in missing),
+                                  '%s() is handed %s with the length %s, but the condition that decides the header is complete (%s) does not account for %s: the parser is '
+                                  'called while those bytes of the header may not have arrived' %
+                                  (t['fn'], buf_field, short(L)[:40], short(cond)[:50], ', '.join(names.get(m, m) for m in missing)), [])
+    run.require(n >= 1 or run.fixture_mode or run.cfg != 'base', 'R-STREAM-ADV(unit complete): no parser call on %s found in %s()' % (buf_field, fname))
